@@ -11,7 +11,7 @@ import json
 import warnings
 
 from harness import iocheck as io
-from harness.gen.pddlgen import IoGenProblem, key_through, forward_plans
+from harness.gen.pddlgen import IoGenProblem, key_through, forward_plans, add_temporal
 
 META = {
     "level": "translation_validation",
@@ -41,6 +41,9 @@ def features(problem):
             stack += [e.value, e.condition]
             if e.is_conditional():
                 tags.add("conditional-effect")
+                ops = a.environment.operators_extractor.get(e.condition) if hasattr(a.environment, "operators_extractor") else set()
+                if any(o.name in ("EXISTS", "FORALL") for o in ops) or "Exists" in str(e.condition) or "Forall" in str(e.condition):
+                    tags.add("quantifier-in-effect-condition")
             if e.is_forall():
                 tags.add("forall-effect")
             if e.is_increase() or e.is_decrease():
@@ -81,13 +84,15 @@ def run(ctx):
     warnings.simplefilter("ignore")
     io.restore_tracebacks()
     ok_proofs = ctx.check_props(extra=["theories/Corr/Corr_C18.v"])
+    io.tick(ctx, "proofs")
     rng = ctx.rng
     nprob = 30 if ctx.quick else 300
     depth, cap = (DEPTH_Q, CAP_Q) if ctx.quick else (DEPTH_T, CAP_T)
     stats = {"generated": 0, "generator_artefact": 0, "writer_documented_unsupported": {}, "ai_parser_rejects": {},
              "reader_documented_unsupported": {}, "compared": {"up": 0, "ai": 0}, "plans_round_tripped": 0,
              "bisim": {"closed": 0, "bounded": 0}, "metric_kinds": {}, "features": {}, "empty_preconditions": 0,
-             "structurally_equal_metrics": 0, "out_of_model": 0}
+             "structurally_equal_metrics": 0, "out_of_model": 0, "writer_warned_inexact_constant": 0, "temporal_problems": 0,
+             "durative_actions_compared": 0, "timed_effects_compared": 0}
     cases, owners = [], []
     generated = 0
     attempts = 0
@@ -96,6 +101,9 @@ def run(ctx):
         ai_friendly = rng.random() < 0.45
         g = IoGenProblem(rng, ai_friendly=ai_friendly, plain_names=(ai_friendly and rng.random() < 0.5),
                          bool_assign=rng.random() < 0.5)
+        if not g.bad and not ai_friendly and rng.random() < 0.3:
+            add_temporal(g, rng, "pddl")
+            stats["temporal_problems"] += 1
         if g.bad:
             stats["generator_artefact"] += 1
             continue
@@ -109,8 +117,14 @@ def run(ctx):
         stats["empty_preconditions"] += empty_pre
         payload = {"problem": str(P), "names": names, "empty_preconditions": empty_pre}
         try:
-            w = PDDLWriter(P, rewrite_bool_assignments=True, empty_preconditions=empty_pre)
-            dom, prob = w.get_domain(), w.get_problem()
+            with warnings.catch_warnings(record=True) as wlog:
+                warnings.simplefilter("always")
+                w = PDDLWriter(P, rewrite_bool_assignments=True, empty_preconditions=empty_pre)
+                dom, prob = w.get_domain(), w.get_problem()
+            if any("cannot exactly represent" in str(x.message) for x in wlog):
+                # documented by a warning: a constant (after the writer's constant folding) needs more than 10 digits
+                stats["writer_warned_inexact_constant"] += 1
+                continue
         except (up.exceptions.UPProblemDefinitionError, up.exceptions.UPUnsupportedProblemTypeError, up.exceptions.UPTypeError) as e:
             k = "%s: %s" % (type(e).__name__, str(e)[:70])
             stats["writer_documented_unsupported"][k] = stats["writer_documented_unsupported"].get(k, 0) + 1
@@ -121,6 +135,8 @@ def run(ctx):
                      ["c18", "writer-crash", type(e).__name__, site[0]] + sorted(feats), dict(payload, site=site), True)
             continue
         payload.update({"domain": dom, "pddl_problem": prob})
+        if io.has_repeated_arith_operand(dom, prob):
+            feats = set(feats) | {"repeated-arith-operand"}
         plans = forward_plans(P, rng, max_depth=3, max_plans=2)
         for rname, kw in (("up", dict(force_up_pddl_reader=True)), ("ai", dict(force_ai_planning_reader=True))):
             reader = PDDLReader(**kw)
@@ -161,24 +177,26 @@ def run(ctx):
                          dict(payload, reader=rname, plan=plan_fail), True)
                 pcs = []
             try:
-                case, info = io.build_case(P, Q, key_through(w.get_item_named), depth, cap, plans=pcs)
+                case, info = io.build_case(P, Q, key_through(w.get_item_named), depth, cap, plans=pcs, split_intervals=True)
             except io.OutOfFragment as e:
                 stats["out_of_model"] += 1
                 ctx.fail("corr", "re-read problem is outside the modelled fragment: %s" % e, ["c18", "reader-" + rname, "out-of-model"] + sorted(feats),
                          dict(payload, reader=rname, reread=str(Q)), False)
                 continue
             stats["compared"][rname] += 1
+            stats["durative_actions_compared"] += info["durative"]
+            stats["timed_effects_compared"] += info["timed_effects"]
             stats["plans_round_tripped"] += len(plans)
             stats["metric_kinds"][info["metricP"]] = stats["metric_kinds"].get(info["metricP"], 0) + 1
             cases.append(case)
-            owners.append({"P": P, "Q": Q, "w": w, "reader": rname, "payload": payload, "info": info, "feats": feats, "nplans": len(plans)})
+            owners.append({"P": P, "Q": Q, "w": w, "reader": rname, "type_name": w.get_pddl_name, "payload": payload, "info": info, "feats": feats, "nplans": len(plans)})
+    io.tick(ctx, "implementation runs")
     codes = ctx.coq_codes(cases, "Corr_C18.code", imports=io.IMPORTS, shard=8, label="c18") if cases else []
-    sizes = ctx.coq_codes(cases, "Corr_C18.size_code", imports=io.IMPORTS, shard=8, label="c18size") if cases else []
+    io.tick(ctx, "coq")
     nontrivial = set()
     samples = []
-    for k, (o, code, sz) in enumerate(zip(owners, codes, sizes)):
-        bis, tdiff, pfail, mdiff = io.decode(code)
-        nstates, bound = sz // 100, sz % 100
+    for k, (o, code) in enumerate(zip(owners, codes)):
+        bis, tdiff, pfail, mdiff, nstates, bound = io.decode(code)
         o["size"] = (nstates, bound)
         if not mdiff:
             stats["structurally_equal_metrics"] += 1
@@ -217,7 +235,7 @@ def report(ctx, pid, o, case, bis, tdiff, pfail, to_q, depth, cap, extra_tags=()
     payload = dict(o["payload"], reader=o["reader"], reread=str(o["Q"]), coq_witness=witness, explored=o.get("size"),
                    ids=o["info"]["ids"])
     if bis >= 100:
-        orc = io.PyOracle(o["P"], o["Q"], to_q).find_difference(depth, max(cap, 60))
+        orc = io.PyOracle(o["P"], o["Q"], to_q, o.get("type_name")).find_difference(depth, max(cap, 60))
         confirmed = bool(orc and orc.get("confirmed"))
         if bis - 100 in (6, 7, 8):      # metric disagreements are not visible to the simulator oracle: compare the metrics directly
             mp, mq = o["P"].quality_metrics, o["Q"].quality_metrics
@@ -228,6 +246,7 @@ def report(ctx, pid, o, case, bis, tdiff, pfail, to_q, depth, cap, extra_tags=()
                  "%s reader: re-read problem differs from the original (%s)%s" % (o["reader"], why, "" if confirmed else " [not reproduced by the simulator oracle]"),
                  tags + [why], payload, confirmed)
     if tdiff:
+        payload["temporal_structures"] = {"original": o["info"]["tP"], "reread": o["info"]["tQ"]}
         ctx.fail("oracle", "%s reader: temporal structure (durations / timed conditions / timed effects) differs" % o["reader"],
                  tags + ["temporal-structure-differs"], payload, True)
     if pfail:
